@@ -3,6 +3,6 @@ CONSTANTS
   ZMag = {}
   ExpMax = 0
   Impl = "decl"
-INVARIANTS LawHolds PickHolds RandCOK
+INVARIANTS LawHolds PickHolds RestrictHolds RandCOK
 POSTCONDITION TraceAccepted
 CHECK_DEADLOCK FALSE
